@@ -225,8 +225,10 @@ def _digit(value, dims, j):
     return digs[::-1][j]
 
 
-def build(recipe, order=None):
-    """-> (circuit, qubits in wire order, IR over axes of ``order`` (default: wire order), key_dims)."""
+def build(recipe, order=None, strategy=None):
+    """-> (circuit, qubits in wire order, IR over axes of ``order`` (default: wire order), key_dims).
+
+    ``strategy``: optional cirq.InsertStrategy used for every append (NEW => one op per moment, recipe order)."""
     import cirq
 
     qs = GC.qubits_of(recipe)
@@ -234,6 +236,7 @@ def build(recipe, order=None):
     order = list(range(n)) if order is None else list(order)
     pos = {w: order.index(w) for w in range(n)}
     c = cirq.Circuit()
+    _app = (lambda x: c.append(x)) if strategy is None else (lambda x: c.append(x, strategy=strategy))
     ir = []
     key_dims = {}
     for o in recipe["ops"]:
@@ -247,14 +250,14 @@ def build(recipe, order=None):
             if k == "cg":
                 op = op.with_classical_controls(*[build_condition(cc) for cc in o["conds"]])
                 base = {"t": "c", "conds": [ir_condition(cc, key_dims) for cc in o["conds"]], "op": base}
-            c.append(op)
+            _app(op)
             ir.append(base)
         elif k == "ch":
             gate = G.build_gate(o["g"])
-            c.append(gate.on(*wq))
+            _app(gate.on(*wq))
             ir.append({"t": "k", "ks": list(cirq.kraus(gate)), "ax": ax})
         elif k == "r":
-            c.append(cirq.ResetChannel(dimension=recipe["dims"][o["w"][0]]).on(*wq))
+            _app(cirq.ResetChannel(dimension=recipe["dims"][o["w"][0]]).on(*wq))
             ir.append({"t": "reset", "ax": ax})
         elif k == "m":
             kw = {}
@@ -262,7 +265,7 @@ def build(recipe, order=None):
                 kw["invert_mask"] = tuple(bool(b) for b in o["inv"])
             if o.get("conf"):
                 kw["confusion_map"] = {tuple(o["conf"][0]): np.array(o["conf"][1], dtype=float)}
-            c.append(cirq.measure(*wq, key=o["key"], **kw))
+            _app(cirq.measure(*wq, key=o["key"], **kw))
             ir.append({"t": "m", "key": o["key"], "ax": ax, "inv": list(o.get("inv") or []),
                        "conf": [[list(o["conf"][0]), o["conf"][1]]] if o.get("conf") else []})
             key_dims[o["key"]] = tuple(recipe["dims"][i] for i in o["w"])
